@@ -11,7 +11,9 @@ def run(report):
                          # the collapse convention: an entry with one node contributes the node itself, otherwise a new node
                          'parso.parser.BaseParser._pop', 'parso.python.parser.Parser.convert_node',
                          # a node is built only from an entry whose rule is complete: _pop's precondition at its call sites
-                         'parso.parser.BaseParser._add_token', 'parso.parser.BaseParser.parse'])
+                         'parso.parser.BaseParser._add_token', 'parso.parser.BaseParser.parse',
+                         # a token is matched against the terminal of its own spelling / type
+                         'parso.parser._token_to_transition'])
     report.assume("engine stack invariant I_stack (every stack entry spells a run of its rule's automaton) is stated in "
                   "DESIGN 4/C05 but not discharged deductively; tree conformance rests on the T table facts plus the "
                   "bounded conformance monitor",
